@@ -131,3 +131,68 @@ func c13Nested(c *Ctx, i int, r *gen.R) {
 		}
 	}
 }
+
+// C13, a by-value copy of a cell that already sits in a row: the copy is a cell of its own.  A callback registered on
+// the copy (before the copy is added to another row) belongs to the copy: it fires once per pass on the live cell
+// the copy became, and never on the cell it was copied from.
+func c13CopyOfPlaced(c *Ctx, i int, r *gen.R) {
+	when := i % len(cbTimes)
+	viaCells := (i/4)%2 == 1
+	attachFirst := (i/8)%2 == 1
+	desc := map[string]interface{}{"time": cbTimeNames[when], "copy_taken_through": map[bool]string{false: "*CellAt(1,2)", true: "AllRows()[0].Cells()[1]"}[viaCells], "second_row_attached_before_the_copy_is_added": attachFirst}
+	c.Case = desc
+	c.Rec.Eval(gen.Hash64("copy-of-placed", fmt.Sprint(i)), true)
+	t := tabular.New()
+	t.AddHeaders("h1", "h2")
+	t.AddRowItems("a", "source")
+	var dup tabular.Cell
+	if viaCells {
+		dup = t.AllRows()[0].Cells()[1]
+	} else {
+		p, err := t.CellAt(tabular.CellLocation{Row: 1, Column: 2})
+		if err != nil {
+			c.Rec.Violate("cell-unreachable", fmt.Sprint(err), desc)
+			return
+		}
+		dup = *p
+	}
+	var fired []string
+	err := t.RegisterPropertyCallback(&dup, cbTimes[when], tabular.CB_ON_ITSELF, cbFunc(func(o tabular.PropertyOwner) error {
+		if cell, ok := o.(*tabular.Cell); ok {
+			fired = append(fired, fmt.Sprintf("%+v", cell.Location()))
+		} else {
+			fired = append(fired, fmt.Sprintf("%T", o))
+		}
+		return nil
+	}))
+	if err != nil {
+		c.Rec.Violate("registration-refused:copy-of-a-placed-cell", fmt.Sprintf("registering on a by-value copy of a placed cell was refused: %v", err), desc)
+		return
+	}
+	row2 := tabular.NewRow()
+	row2.Add(tabular.NewCell("b"))
+	if attachFirst {
+		t.AddRow(row2)
+		row2.Add(dup)
+	} else {
+		row2.Add(dup)
+		t.AddRow(row2)
+	}
+	atAdd := append([]string{}, fired...)
+	fired = nil
+	t.InvokeRenderCallbacks()
+	c.Rec.Count("callbacks_registered_on_by-value_copies_of_placed_cells", 1)
+	want := []string{"{Row:2 Column:2}"}
+	for _, f := range append(append([]string{}, atAdd...), fired...) {
+		if f == "{Row:1 Column:2}" {
+			c.Rec.Violate("copy-of-a-placed-cell:fires-on-the-original", fmt.Sprintf("a %s callback registered on a by-value copy of the cell at (1,2) fired on the ORIGINAL cell (while the copy was added: %v; during the render pass: %v)", cbTimeNames[when], atAdd, fired), desc)
+			return
+		}
+	}
+	if cbTimeNames[when] != "AT_RENDER" {
+		return // a cell's own callbacks have a place in the documented order at render time only; the other times are not asserted
+	}
+	if fmt.Sprint(fired) != fmt.Sprint(want) {
+		c.Rec.Violate("copy-of-a-placed-cell:fires-elsewhere", fmt.Sprintf("a %s callback registered on a by-value copy of the cell at (1,2), the copy then added to row 2, fired on %v during one render pass; expected exactly once, on the live cell %v", cbTimeNames[when], fired, want), desc)
+	}
+}
